@@ -84,13 +84,19 @@ def assoc_events(ctx):
     unassigned tag) followed by signatures: which signatures does PGPy hold on which component, in memory and after export."""
     pgpy = import_pgpy()
     ev = []
-    for variant in ('plain', 'v5-subkey-between', 'unknown-tag-after-uid', 'v5-subkey-last', 'v5-subkey-first', 'trust-and-v5', 'two-unknown'):
+    for variant in ('plain', 'v5-subkey-between', 'unknown-tag-after-uid', 'v5-subkey-last', 'v5-subkey-first', 'trust-and-v5', 'two-unknown', 'five-octet-subpacket-lengths', 'latin1-uid'):
         for secret in (False, True):
             fk = build.ForeignKey('ed25519')
             s1 = enc.Recipient('cv25519', created=fk.created + 1)
             s2 = build.ForeignKey('ed25519', created=fk.created + 2)
             uids = [b'Assoc One <a1@example.org>', b'Assoc Two <a2@example.org>']
-            whole = build.transferable_key(fk, uids, subkeys=[(s1, 0x0C), (s2, 0x02)], secret=secret, trust_packets=(variant == 'trust-and-v5'))
+            if variant == 'latin1-uid':
+                uids = [b'Assoc One <a1@example.org>', 'J\xf6rg M\xfcller <jm@example.org>'.encode('latin-1')]     # not UTF-8: old keys carry such identities
+            xh = []
+            if variant == 'five-octet-subpacket-lengths':
+                # hashed areas another implementation may write and PGPy never does: what is exported must still be what was signed
+                xh = [build.subpacket(26, b'https://example.org/policy', form=5), build.subpacket(100, b'private', form=5)]
+            whole = build.transferable_key(fk, uids, subkeys=[(s1, 0x0C), (s2, 0x02)], secret=secret, trust_packets=(variant == 'trust-and-v5'), extra_hashed=xh)
             pk = build.read_packets(whole)
             # an unreadable subkey (version 5 layout: version, time, algorithm, 4-octet material length, material) with a binding-like and a
             # revocation-like signature by the primary over it
@@ -114,7 +120,7 @@ def assoc_events(ctx):
             if variant in ('unknown-tag-after-uid', 'two-unknown'):
                 ins[uididx[1]] = unk + su
             blob = b''.join(ins.get(j, b'') + r for j, r in enumerate(raws)) + ins.get(len(raws), b'')
-            e = {'k': 'assoc', 'label': '%s %s' % (variant, 'secret' if secret else 'public'), 'blob': octets(blob), 'got': [], 'reexport': []}
+            e = {'k': 'assoc', 'label': '%s %s' % (variant, 'secret' if secret else 'public'), 'blob': octets(blob), 'got': [], 'reexport': [], 'copy_export': [], 'pub_export': []}
             with warnings.catch_warnings():
                 warnings.simplefilter('ignore')
                 try:
@@ -132,6 +138,9 @@ def assoc_events(ctx):
                     for sk in k.subkeys.values():
                         e['got'].append({'comp': keycomp(sk), 'sigs': sigbodies(sk.__sig__)})
                     e['reexport'] = octets(bytes(k))
+                    import copy as _copy
+                    e['copy_export'] = octets(bytes(_copy.copy(k)))
+                    e['pub_export'] = octets(bytes(k.pubkey if not k.is_public else _copy.copy(k)))
                     e['raised'] = False
                 except Exception as ex:
                     e['raised'] = True
